@@ -21,12 +21,13 @@ MANIFEST = {
             "and compares with the ghost label positions.",
     "note": "Trusted: Lean kernel; Spec/RefSemantics.lean (what a reference field designates) and Spec/Offset.lean; the menu of "
             "instruction shapes (opaque non-field bytes, compared byte for byte); harness/driver/diff. The end-to-end theorems are stated on the model's "
-            "ghost log of fixup records with the Spec/Offset field decoder; the last step to the CPU reading of Spec/RefSemantics "
-            "(end of instruction + disp; opcode-based field location) and references encoded directly against an already bound "
-            "label are judged by the monitor on every explored program, not proved. Buffer growth, set_offset, named "
+            "ghost log of fixup records with the Spec/Offset field decoder; Props/C03B carries them to the monitor's CPU reading "
+            "(judgeRel: end of instruction + sign-extended field on x86, pc + field on AArch64, ADRP pages) - what remains evaluated on "
+            "every explored program rather than proved is the monitor's own bookkeeping (its Ref records name the same field as the "
+            "model's log; opcode-based field location) and references encoded directly against an already bound label. Buffer growth, set_offset, named "
             "labels and the Builder path are not modelled. Model follows the repaired code (fixes/C03-1, C03-2).",
 }
-MODS = ["AsmjitVerif.Props.C03", "AsmjitVerif.Props.C03E"]
+MODS = ["AsmjitVerif.Props.C03", "AsmjitVerif.Props.C03E", "AsmjitVerif.Props.C03B"]
 M64 = (1 << 64) - 1
 
 JK = ["jmp", "jz", "call", "jecxz", "loop"]
